@@ -2,16 +2,99 @@
 
 TB = ("trusted base: the oracle kernel in hv/oracle (self-tested against dense linear algebra at the start of every "
       "run), CPython, numpy and qiskit's QuantumCircuit container (instruction list only)")
+RM = "runtime monitoring: "
 
 
 def register(check, pending):
-    check("C01", "runtime monitoring: boundary monitor on get_preparation_circuit + independent signed-tableau oracle",
-          "Every preparation call of an exhaustive (all groups x all signs, n<=3; thorough n<=4 and all groups of n=5) "
+    check("C01", RM + "boundary monitor on get_preparation_circuit + independent signed-tableau oracle",
+          "Every preparation call of an exhaustive (all groups x all signs, n<=3; thorough n<=4 and all 75,735 groups of n=5) "
           "plus class-stratified random workload is observed and the returned instruction list is simulated by an "
           "independent signed Pauli tableau; held means: exact signed state on every execution observed, all 5,962 "
           "(configuration, class) pairs and all input formats visited. Sampled (not decided) for n=6 groups, "
           "generating sets and signs beyond the exhaustive part.",
           TB, "DESIGN.md section 4 C01")
-    for p in ["C02", "C03", "C04", "C05", "C06", "C07", "C08", "C09", "C10", "C11", "C12", "C13", "C14", "C15",
-              "C16", "C17", "C18", "C19"]:
-        pending[p] = "check under construction in this session (design in DESIGN.md section 4); not claimed yet"
+    check("C02", RM + "instruction-by-instruction inspection of every delivered circuit against a transcribed edge table",
+          "Every circuit handed out by any entry point during the workload (preparation, readout, compressed, all MUB circuits, "
+          "tomography / stabilizer-measurement circuits on registers up to 8 qubits with ordered qubit lists) is inspected; the 20 "
+          "coupling graphs are compared with the documented ones. Exhaustive over table classes, MUB circuits and ordered lists for "
+          "N<=4; sampled over members, input circuits and larger registers.",
+          TB + "; the edge table hv/oracle/conn.py transcribed from README/docstrings", "DESIGN.md section 4 C02")
+    check("C03", RM + "boundary monitor on get_readout_circuit, all 2^n group elements conjugated by the tableau oracle",
+          "For every observed readout call all group elements (formed by the oracle) are conjugated through the returned circuit, the "
+          "call is repeated with other sign patterns of the same generators (identical instruction list required) and the inverse "
+          "circuit is checked to prepare the group up to signs. Exhaustive over groups n<=4 (thorough n<=5), class-stratified above.",
+          TB, "DESIGN.md section 4 C03")
+    check("C04", RM + "online table keyed by (connectivity, oracle LC-orbit label) over delivered (cost, depth) pairs",
+          "Members of every (configuration, class) pair that differ by local Cliffords, signs, generating sets and formats go through "
+          "prepare, readout and compress; the set of observed (cost, depth) pairs per orbit must be a singleton and equal the lookup "
+          "metadata of the class id the library assigns. All 5,962 pairs observed; members sampled.",
+          TB + "; LC-orbit labels decide LC equivalence (Van den Nest et al.)", "DESIGN.md section 4 C04")
+    check("C05", RM + "monitored competitor workload: BFS witness circuits (exhaustive modulo local Cliffords) through the real compress/prepare APIs",
+          "A breadth-first search over the LC-class transition graph (<=760 nodes) gives, for each of the 5,962 (configuration, class) "
+          "pairs, the minimum two-qubit count over ALL competitor circuits and an explicit witness; the witness and members of the class "
+          "go through the real APIs and the delivered cost must equal the optimum. 570 six-qubit table entries are genuinely suboptimal "
+          "(open known findings, keyed by entry, delivered cost and optimum); anything else is a violation. Thorough adds 20,000 "
+          "random-walk competitors per configuration.",
+          TB + "; factorisation of competitors into CZ gates and local Clifford layers; LC-orbit labels", "DESIGN.md section 4 C05")
+    check("C06", RM + "relation monitor {(library class id, oracle LC-orbit label)} over exhaustively enumerated groups",
+          "determine_lc_class is observed on every stabilizer group of n<=5 (quick) / n<=6 (thorough: all 4,922,775 six-qubit groups) plus "
+          "re-presentations; the id<->orbit relation must be a bijection onto 0..K-1, invariant under generators and signs; class "
+          "round trip and representative graphs checked. Thorough decides the property for the inputs quantifier except 'all generating "
+          "sets', which is sampled.",
+          TB + "; Van den Nest-Dehaene-De Moor theorem (label cross-checked by brute force for n<=4)", "DESIGN.md section 4 C06")
+    check("C07", RM + "boundary monitor on compress_preparation_circuit (input snapshot before/after, output simulated)",
+          "Random circuits over the documented gate set (lengths 0..2000, eight gate mixes incl. id/y/swap/redundant pairs/uncoupled "
+          "two-qubit gates) on all 20 configurations: output must prepare the same signed state, obey the coupling graph, cost the "
+          "class's metadata cost (and be constant per orbit), input object untouched. Sampled (unbounded domain).",
+          TB, "DESIGN.md section 4 C07")
+    check("C08", RM + "outcome-class monitor (returned vs exception) with tableau judgement of every returned circuit",
+          "Arbitrary Pauli sets (all 2^8 x 4 for n=2, 30k/all 2^18 for n=3 validate, sampled hostile sets n=3..6) through validate / prepare / "
+          "readout; a returned circuit must be right for the given operators, invalid sets must not be prepared, valid ones must be "
+          "served; complete (n in 0..8) x 17 names x 11 entry points grid.",
+          TB, "DESIGN.md section 4 C08")
+    check("C09", RM + "exhaustive recomputation of everything get_mubs/get_mub_circuits/get_mub_info return",
+          "Finite domain swept completely through the public API: counts, validity, Pauli partition, index alignment (all 2^n elements "
+          "of basis i through circuit i), info dictionary numbers, MUB cost <= readout cost, connectivity.",
+          TB, "DESIGN.md section 4 C09")
+    check("C10", RM + "real fitter fed with exact statistics through a duck-typed result; operator-basis spanning set + monitored linearity",
+          "For every configuration the complete operator basis of 4^n states goes through the real FullStateTomographyFitter in one "
+          "vector-valued pass (exact integers); linearity of the real code path is probed with scalar counts; dense random states "
+          "(incl. circuit-prepared ones) are reconstructed to 1e-9. Exactness on the spanning set + linearity => all density matrices.",
+          TB + "; dense simulator", "DESIGN.md section 4 C10")
+    check("C11", RM + "both measurement APIs with ordered measured-qubit lists, fitter outputs in both modes vs ordered partial trace",
+          "Registers N<=8, ordered lists exhaustive for small N, both APIs, both output modes; values decided on the operator basis of the "
+          "register and on entangled random states; keys in full-register mode must be the reduced keys placed on the listed qubits.",
+          TB + "; dense simulator / partial trace", "DESIGN.md section 4 C11")
+    check("C12", RM + "real StabilizerMeasurementFitter on exact statistics: key set and values on the complete operator basis",
+          "Exactly 2^n phase-free keys = identity + unsigned group elements; values exact on all 4^n basis states per case (so input signs "
+          "cannot leak) and on dense states. Exhaustive over groups x signs x configurations for n<=3, class-stratified above.",
+          TB + "; dense simulator", "DESIGN.md section 4 C12")
+    check("C13", RM + "offline checker over recorded API sessions vs answers of a pristine forked process and of another interpreter",
+          "Sessions in fresh interpreters (three hash seeds) interleave calls of 18 entry points, caller-side mutation of everything "
+          "returned earlier and re-requests; every result must equal a pristine process's answer, arguments must be unchanged; an audit "
+          "hook records cold/warm cache. Sampled histories.",
+          TB + "; fork-before-first-call = fresh interpreter (cross-checked against a separately started interpreter)", "DESIGN.md section 4 C13")
+    check("C14", RM + "constructor / export monitor vs independent Pauli parser and circuit simulator",
+          "All five input formats, export round trip and mirror image, Graph.to_circuit for all graphs on <=5 vertices (sampled/all on 6) "
+          "incl. edgeless ones, Stabilizer(circuit) for random Clifford circuits, and the preparation API across formats.",
+          TB, "DESIGN.md section 4 C14")
+    check("C15", RM + "icontract post-conditions on is_equivalent_mod_phase / expand / is_qubit_entangled",
+          "Contracts attached to the real methods compare every evaluation with canonical forms / brute-force group expansion; all ordered "
+          "pairs of groups n<=3, all (group, qubit) n<=5, structured near-miss pairs n=4..6.",
+          TB + "; icontract", "DESIGN.md section 4 C15")
+    check("C16", RM + "outcome judge on find_local_clifford_layer / local_clifford_layer_to_circuit vs brute force over 6^n layers",
+          "Full stabilizers against graphs of their own and other orbits and partial operator sets; existence by brute force (n<=5, n=6 "
+          "partial) or orbit labels (n=6 full); returned layers checked for Clifford-ness, effect and gate sequence; exceptions are "
+          "violations. Exhaustive groups x graphs n<=3 (thorough n<=4).",
+          TB + "; icontract (in-situ contracts)", "DESIGN.md section 4 C16")
+    check("C17", RM + "every table line read through the real lookup/parser and compared with an independent tokenizer, simulator and orbit oracle",
+          "All 6,722 entries of all stabilizer*-*.txt files (advertised and stray): line count, alignment, vocabulary, state, class, cost, "
+          "depth, connectivity. Exhaustive.",
+          TB, "DESIGN.md section 4 C17")
+    check("C18", RM + "icontract post-conditions (with snapshots) on rref / rank / rref_and_basis_change / null_space / mat_mul",
+          "Every binary matrix of every shape with m*n<=12, thousands of random/structured matrices up to 36x24 in 4 integer dtypes and the "
+          "in-situ calls of the pipeline; outputs compared with a bit-int RREF and brute-force span/kernel enumeration.",
+          TB + "; icontract", "DESIGN.md section 4 C18")
+    check("C19", RM + "exhaustive codec monitor vs independent adjacency-bitmask implementation",
+          "All graphs on 2..6 vertices x all vertices, all class ids, all grouping indices, all pair indices. Exhaustive.",
+          TB, "DESIGN.md section 4 C19")
